@@ -1,7 +1,7 @@
 (** Executable instances of the safety models for the correspondence run (extracted to OCaml):
     every entry point takes plain strings / numbers and returns strings and numbers in [res]. *)
 From Snoopy Require Import Lib.CStr Safety.Mem Safety.CLib Safety.Consts Safety.Lits Safety.Str Safety.Filter Safety.Conf Safety.Ds Safety.Out
-     Safety.Cgroup Safety.Rpname Expand.Model Expand.Exec Datasource.Cmdline.
+     Safety.Cgroup Safety.Rpname Safety.Top Expand.Model Expand.Exec Datasource.Cmdline.
 From Coq Require Import ZifyBool ZifyN ZifyNat.
 Local Open Scope N_scope.
 
@@ -181,4 +181,12 @@ Section Exec.
     b0 <- wr (z_buf size) 0 NUL ;;
     r <- rpname_buf rp_sizes_of (lookup table) (S (S (List.length table))) pid b0 size ;;
     s <- str_of (fst r) ;; Ok ([s], [snd r]).
+  (** 24. configfile.c: the whole file through ini.c and the option parsers (Top.load_config); strings that the file does
+      not set are reported as the one-byte marker 0x01 *)
+  Definition x_cfgload (ini : list byte) : res outv :=
+    let mark := [x01] in
+    let dflt := {| g_message_format := mark; g_filter_chain := mark; g_output := mark; g_output_arg := mark; g_ident := mark;
+                   g_facility := mark; g_level := mark; g_error_logging := false; g_llog := s_default_log c; g_lds := s_default_ds c |} in
+    cf <- load_config c dflt (Some ini) ;;
+    Ok ([g_message_format cf; g_filter_chain cf; g_ident cf], [g_llog cf; g_lds cf; if g_error_logging cf then 1 else 0]).
 End Exec.
